@@ -10,7 +10,7 @@ def mir_path(features="default"):
     """returns path of an up-to-date dump for the current working tree of /repo"""
     core = os.path.join(REPO, "core")
     key = tree_hash([os.path.join(core, "src"), os.path.join(core, "Cargo.toml"), os.path.join(REPO, "Cargo.lock")])
-    out = os.path.join(BUILD, "mir", f"rzmq-{features}-{key}.mir")
+    out = os.path.join(BUILD, "mir", f"rzmq-{features}-{key}-v2.mir")      # v2: with coroutine drop shims appended
     if os.path.exists(out) and os.path.getsize(out) > 1000000:
         return out
     with FileLock("mir-" + features):
@@ -29,13 +29,37 @@ def mir_path(features="default"):
             for d in os.listdir(marker):
                 if d.startswith("rzmq-"):
                     shutil.rmtree(os.path.join(marker, d), ignore_errors=True)
+        # the same rustc run also writes the drop shims of all coroutines (the code that runs when a suspended
+        # future is dropped); CARGO_INCREMENTAL=0 because passes answered from the incremental cache dump nothing
+        ddir = out + ".drops"
+        shutil.rmtree(ddir, ignore_errors=True)
+        os.makedirs(ddir)
         cmd = ["cargo", "+nightly", "rustc", "--offline", "--lib", "-p", "rzmq", *FEATURE_SETS[features], "--",
-               "-Zunpretty=mir", "-Zmir-include-spans=on", "-Ztrim-diagnostic-paths=no", "-C", "overflow-checks=on", "-Awarnings"]
+               "-Zunpretty=mir", "-Zmir-include-spans=on", "-Ztrim-diagnostic-paths=no", "-C", "overflow-checks=on", "-Awarnings",
+               "-Zdump-mir=coroutine_drop", f"-Zdump-mir-dir={ddir}"]
         tmp = out + ".tmp"
-        rc, o, wall = sh(" ".join(cmd) + f" > {tmp} 2> {tmp}.err", cwd=core, env={"CARGO_TARGET_DIR": tdir}, timeout=1500)
+        rc, o, wall = sh(" ".join(cmd) + f" > {tmp} 2> {tmp}.err", cwd=core, env={"CARGO_TARGET_DIR": tdir, "CARGO_INCREMENTAL": "0"}, timeout=1500)
         if rc != 0 or not os.path.exists(tmp) or os.path.getsize(tmp) < 1000000:
             err = open(tmp + ".err").read()[-2000:] if os.path.exists(tmp + ".err") else o
             raise RuntimeError("MIR dump failed: " + err)
+        n_shims = 0
+        with open(tmp, "a") as f:
+            f.write("\n// ---- coroutine drop shims (-Zdump-mir=coroutine_drop) ----\n")
+            for fn in sorted(os.listdir(ddir)):
+                if not fn.endswith(".coroutine_drop.0.mir"):
+                    continue
+                txt = open(os.path.join(ddir, fn), errors="replace").read().split("\n")
+                for i, ln in enumerate(txt):
+                    if ln.startswith("fn "):
+                        k = ln.find("(_1: *mut ")
+                        if k > 0:
+                            txt[i] = ln[:k] + "::{coroutine_drop}" + ln[k:]
+                            n_shims += 1
+                        break
+                f.write("\n".join(txt) + "\n")
+        shutil.rmtree(ddir, ignore_errors=True)
+        if n_shims == 0:
+            raise RuntimeError("MIR dump contains no coroutine drop shims")
         os.replace(tmp, out)
     return out
 
